@@ -159,7 +159,7 @@ def issued_ok(st):
     r = rooms(st)
     n, ro, s = z3.Consts('is_n is_r is_s', V)
     return {'issued.members': FA([n, ro, s], z3.Implies(member(st, n, ro, s), iss.c['.'][s])),
-            'issued.room-names': FA([n, ro], z3.Implies(z3.And(r.c['dom'][n], r.c['.dom'][n][ro], ro != NONE), iss.c['.'][ro]))}
+            'issued.room-names': FA([n, ro, s], z3.Implies(z3.And(member(st, n, ro, s), ro != NONE), iss.c['.'][ro]))}
 
 
 def cb_present(st, sid, k, obj='manager'):
